@@ -320,9 +320,11 @@ class ProgGen:
         if r.below(2):
             self.proto = r.below(self.max_proto + 1)
             out += self.op("PROTO", b"\x80" + bytes([self.proto]))
+        body = self.value(depth) + self.op("STOP", b".")
         if self.proto >= 4 and r.below(2):
-            out += self.op("FRAME", b"\x95" + struct.pack("<Q", r.below(1000)))
-        return out + self.value(depth) + self.op("STOP", b".")
+            # the frame covers exactly the rest of the pickle (as CPython's pickler frames)
+            out += self.op("FRAME", b"\x95" + struct.pack("<Q", len(body)))
+        return out + body
 
 # ---- malformed stream -----------------------------------------------------------------------
 LEN_OPS = [(b"T", 4), (b"X", 4), (b"B", 4), (b"U", 1), (b"C", 1), (b"\x8c", 1), (b"\x96", 8),
